@@ -320,6 +320,12 @@ def a_amount_table(C, rep, rid):
         # every assignment that can produce the amount (through moves, `?`, Ok(..) payloads and local pure helpers),
         # each with the Option/Result arms and comparisons that hold where it is made
         defs = mm.def_alternatives(F, X, b, op)
+        # where an assignment is reached from several arms (`(Some(a), _) => a` after a failed `a != t` guard and from
+        # `t == None`) no single branch dominates it: then one entry per path, each must be justified
+        if not _amount_defs_ok(C, b, defs):
+            pw = mm.def_alternatives(F, X, b, op, pathwise=True)
+            if pw and len(pw) <= 64:
+                defs = pw
         bfile = b.span.get("f")
 
         def other_file(n, bfile=bfile):
@@ -415,6 +421,47 @@ def _tu64_rules(F, X, rep, rid, fn, b, is_helper):
             ok = vals == {"None"}
             rep.ob(rid, ok, fn, "malformed amount field => treated as absent", where=c.loc, how=str(sorted(vals)), detail="" if ok else "an over-long amount field yields %s" % sorted(vals))
 
+
+
+def _amount_state(C, b, vfacts, cfacts):
+    F, X = C.F, C.X
+    bfile = b.span.get("f")
+
+    def other_file(n):
+        return F.by_cdef.get(n) is None or F.by_cdef[n].span.get("f") != bfile or n.startswith("<")
+    inv_state = tlv_state = eqok = None
+    for pe, truth in vfacts:
+        pe = strip(mm.inline_pure(F, X, pe, keep=other_file))
+        if all(a[0] == "call" and a[1] == "lightning_invoice::Bolt11Invoice::amount_milli_satoshis" for a in alts(pe)):
+            inv_state = truth
+        elif any(_mentions_tlv_amount(a) for a in alts(pe)) and truth in (("Some",), ("None",)) and not any(_is_get_result(a) for a in alts(pe)):
+            tlv_state = truth
+    for ea, cop, eb in cfacts:
+        if cop not in ("Eq", "Ne"):
+            continue
+        ea, eb = strip(mm.inline_pure(F, X, ea, keep=other_file)), strip(mm.inline_pure(F, X, eb, keep=other_file))
+        if (_is_inv_amount(ea) and all(_is_tlv_amount(a) for a in alts(eb))) or (_is_inv_amount(eb) and all(_is_tlv_amount(a) for a in alts(ea))):
+            eqok = cop == "Eq"
+    return inv_state, tlv_state, eqok
+
+
+def _amount_defs_ok(C, b, defs):
+    F, X = C.F, C.X
+    bfile = b.span.get("f")
+    for e, vfacts, cfacts, wh in defs:
+        e = strip(mm.inline_pure(F, X, e, keep=lambda n: F.by_cdef.get(n) is None or F.by_cdef[n].span.get("f") != bfile or n.startswith("<")))
+        inv_state, tlv_state, eqok = _amount_state(C, b, vfacts, cfacts)
+        is_inv = all(a[0] == "field" and a[3] == "Some" and a[4][0] == "call" and a[4][1] == "lightning_invoice::Bolt11Invoice::amount_milli_satoshis" for a in alts(e))
+        is_tlv = all(_is_tlv_amount(a) for a in alts(e))
+        if is_inv:
+            if not (inv_state == ("Some",) and (tlv_state == ("None",) or (tlv_state == ("Some",) and eqok is True))):
+                return False
+        elif is_tlv:
+            if not ((inv_state == ("None",) and tlv_state == ("Some",)) or (inv_state == ("Some",) and tlv_state == ("Some",) and eqok is True)):
+                return False
+        else:
+            return False
+    return True
 
 
 def _is_get_result(a):
